@@ -63,7 +63,9 @@ def theorems_of(path):
         m = re.match(r"\s*end\s+(\S+)", line)
         if m and ns and ns[-1] == m.group(1):
             ns.pop(); continue
-        m = re.match(r"\s*(?:private\s+|protected\s+)?theorem\s+([^\s:({\[]+)", line)
+        if re.match(r"\s*private\s+theorem\s", line):
+            continue  # private helper: not nameable from outside; its axioms show up in the audit of every public theorem using it
+        m = re.match(r"\s*(?:protected\s+)?theorem\s+([^\s:({\[]+)", line)
         if m:
             names.append(".".join(ns + [m.group(1)]))
     return names
